@@ -32,3 +32,4 @@ import RpylibModel.ProofsGen.SrcC10Model
 import RpylibModel.ProofsGen.SrcC18
 import RpylibModel.ProofsGen.SrcC19
 import RpylibModel.ProofsGen.SrcC09
+import RpylibModel.ProofsGen.SrcC03
